@@ -631,9 +631,9 @@ def handleCore (mac : Bool) (args : List String) (obs : String) : Option Reply :
           (match wrong, extra with
            | none, none => []
            | some c, _ => [(if clash then "[C12][C15] executed cases differ from the registered, selected, not-ignored ones (F7 name clash)"
-              else sel ++ "[C15] executed cases differ from the registered, selected, not-ignored ones") ++ s!" (case {c.path})"]
+              else sel ++ "[C15][C14] executed cases differ from the registered, selected, not-ignored ones") ++ s!" (case {c.path})"]
            | none, some e => [(if clash then "[C12][C15] executed cases differ from the registered, selected, not-ignored ones (F7 name clash)"
-              else sel ++ "[C15] executed cases differ from the registered, selected, not-ignored ones") ++ s!" (unexpected slot {e.slot})"]) ++
+              else sel ++ "[C15][C14] executed cases differ from the registered, selected, not-ignored ones") ++ s!" (unexpected slot {e.slot})"]) ++
           -- calls and thread counts per case under the per-field resolved options
           (let badCalls := runs.find? fun c =>
               let eo : Opts := { sc := resolve (·.sc) ps.cfg.runtime c.chain, ss := resolve (·.ss) ps.cfg.runtime c.chain,
@@ -742,6 +742,19 @@ def handleCore (mac : Bool) (args : List String) (obs : String) : Option Reply :
           match dup with
           | some i => [s!"[C20][C15] the thread-count branch `{(rows[i]!).label}` is printed (and run) more than once under one benchmark"]
           | none => []
+        else []) ++
+       -- C20: the statistics columns and their heading row belong to bench runs, whichever way the action
+       -- was chosen (`--bench`, `run_benches()` on a runner configured otherwise), and to nothing else
+       (if ps.act ≠ "terse" ∧ (seg 'X') = "0" ∧ !implOut.isEmpty then
+          let heading := "fastest │ slowest │ median │ mean │ samples │ iters"
+          let squash (l : String) : String := " ".intercalate ((l.splitOn " ").filter (· ≠ ""))
+          let lines := (implOut.splitOn "\n").map squash
+          let has := lines.any fun l => (l.splitOn heading).length > 1
+          if execAct = .bench ∧ !listing ∧ !has then
+            ["[C20] the table of a bench run has no heading row (fastest │ slowest │ median │ mean │ samples │ iters): the columns do not follow the action that runs"]
+          else if (execAct ≠ .bench ∨ listing) ∧ has then
+            ["[C20] a test run / listing prints the statistics heading row and columns of a bench run: the columns do not follow the action that runs"]
+          else []
         else []) ++
        -- C20: glyphs of the printed tree, judged on the text alone
        (if ps.act ≠ "terse" ∧ (seg 'X') = "0" then
